@@ -316,3 +316,234 @@ pub async fn read_client_random_and_replay(
 ) -> io::Result<(Option<Vec<u8>>, usize, Vec<u8>)> {
     crate::tls_listener::TlsListener::verif_read_and_replay(stream, read_sizes).await
 }
+
+// ---------------------------------------------------------------------------------------
+// SOCKS5 upstream
+
+#[derive(Debug, Clone)]
+pub enum VAuthSource {
+    Sni(String),
+    ProxyBasic(String),
+}
+
+impl VAuthSource {
+    fn to_source(&self) -> crate::authentication::Source<'static> {
+        match self {
+            VAuthSource::Sni(x) => crate::authentication::Source::Sni(x.clone().into()),
+            VAuthSource::ProxyBasic(x) => {
+                crate::authentication::Source::ProxyBasic(x.clone().into())
+            }
+        }
+    }
+}
+
+#[derive(Debug, Clone)]
+pub enum VSocksAuth {
+    None,
+    /// through `make_auth` / `make_extended_auth`
+    FromSource {
+        source: VAuthSource,
+        extended: bool,
+        tls_domain: String,
+        client_address: IpAddr,
+        user_agent: Option<String>,
+    },
+    /// directly, bypassing `make_auth`
+    UsernamePassword(String, String),
+}
+
+#[derive(Debug, Clone)]
+pub enum VSocksRequest {
+    ConnectIp(SocketAddr),
+    ConnectDomain(String, u16),
+    UdpAssociate,
+}
+
+pub struct VSocksDialogue {
+    /// everything the client wrote, in order
+    pub client_bytes: Vec<u8>,
+    /// `tcp` | `udp <bound addr>` | `failure <code>` | `error io|protocol|auth` | `makeauth-failed`
+    pub outcome: String,
+}
+
+fn reply_code_u8(c: &crate::socks5_client::ReplyCode) -> u8 {
+    use crate::socks5_client::ReplyCode::*;
+    match c {
+        Succeeded => 0,
+        GeneralFailure => 1,
+        NotAllowed => 2,
+        NetworkUnreachable => 3,
+        HostUnreachable => 4,
+        ConnectionRefused => 5,
+        TtlExpired => 6,
+        CommandNotSupported => 7,
+        AddressTypeNotSupported => 8,
+    }
+}
+
+/// Run the real `socks5_client::connect` over an in-memory pipe against a scripted server which
+/// sends `server_segments` one by one (yielding in between) whatever the client says.
+pub async fn socks5_dialogue(
+    auth: VSocksAuth,
+    request: VSocksRequest,
+    server_segments: Vec<Vec<u8>>,
+) -> VSocksDialogue {
+    use crate::socks5_client as sc;
+    use tokio::io::{AsyncReadExt, AsyncWriteExt};
+
+    let auth = match auth {
+        VSocksAuth::None => None,
+        VSocksAuth::UsernamePassword(u, p) => {
+            Some(sc::Authentication::UsernamePassword(u.into(), p.into()))
+        }
+        VSocksAuth::FromSource {
+            source,
+            extended,
+            tls_domain,
+            client_address,
+            user_agent,
+        } => match crate::socks5_forwarder::verif_make_auth(
+            source.to_source(),
+            extended,
+            &tls_domain,
+            &client_address,
+            user_agent.as_deref(),
+        ) {
+            Ok(x) => Some(x),
+            Err(_) => {
+                return VSocksDialogue {
+                    client_bytes: vec![],
+                    outcome: "makeauth-failed".to_string(),
+                }
+            }
+        },
+    };
+    let request = match request {
+        VSocksRequest::ConnectIp(a) => sc::Request::Connect(sc::Address::IpAddress(a.ip()), a.port()),
+        VSocksRequest::ConnectDomain(d, p) => {
+            sc::Request::Connect(sc::Address::DomainName(d.into()), p)
+        }
+        VSocksRequest::UdpAssociate => sc::Request::UdpAssociate,
+    };
+
+    let (client_io, server_io) = tokio::io::duplex(1 << 20);
+    let (mut srv_rd, mut srv_wr) = tokio::io::split(server_io);
+    let writer = tokio::spawn(async move {
+        for seg in server_segments {
+            if srv_wr.write_all(&seg).await.is_err() {
+                break;
+            }
+            tokio::task::yield_now().await;
+        }
+        // the server's bytes are finite: a client waiting for more must see EOF (truncated reply)
+        let _ = srv_wr.shutdown().await;
+    });
+    let reader = tokio::spawn(async move {
+        let mut all = vec![];
+        let _ = srv_rd.read_to_end(&mut all).await;
+        all
+    });
+
+
+    let outcome = match sc::connect(client_io, auth, request).await {
+        Ok(sc::ConnectResult::TcpConnection(_)) => "tcp".to_string(),
+        Ok(sc::ConnectResult::UdpAssociation(a)) => match a.get_ref().peer_addr() {
+            Ok(p) => format!("udp {}", p),
+            Err(_) => "udp ?".to_string(),
+        },
+        Ok(sc::ConnectResult::Failure(c)) => format!("failure {}", reply_code_u8(&c)),
+        Err(sc::Error::Io(_)) => "error io".to_string(),
+        Err(sc::Error::Protocol(_)) => "error protocol".to_string(),
+        Err(sc::Error::Authentication(_)) => "error auth".to_string(),
+    };
+    let _ = writer.await;
+    let client_bytes = reader.await.unwrap_or_default();
+    VSocksDialogue {
+        client_bytes,
+        outcome,
+    }
+}
+
+/// The forwarder a [`Core`] is configured with (direct or SOCKS5): run its TCP connector
+pub async fn forwarder_connect(
+    core: &Core,
+    destination: VTcpDestination,
+    auth: Option<VAuthSource>,
+) -> VConnectOutcome {
+    let connector = core.verif_make_forwarder().tcp_connector();
+    let meta = forwarder::TcpConnectionMeta {
+        client_address: IpAddr::from([203, 0, 113, 1]),
+        destination: match destination {
+            VTcpDestination::Address(a) => net_utils::TcpDestination::Address(a),
+            VTcpDestination::HostName(h, p) => net_utils::TcpDestination::HostName((h, p)),
+        },
+        auth: auth.map(|a| a.to_source()),
+        tls_domain: "tls.example".to_string(),
+        user_agent: Some("verif-agent".to_string()),
+    };
+    match connector.connect(log_utils::IdChain::empty(), meta).await {
+        Ok(_) => VConnectOutcome::Connected,
+        Err(e) => outcome_of_error(&e),
+    }
+}
+
+/// Establish a UDP association against `server_reply` (selection + reply bytes), send the
+/// given datagrams through it and feed `incoming` raw datagrams to it from `relay`
+/// (the socket the reply designates). Returns what `recv_from` reported for each incoming one.
+pub async fn socks5_udp_exchange(
+    server_bytes: Vec<u8>,
+    sends: Vec<(SocketAddr, Vec<u8>)>,
+    relay: &tokio::net::UdpSocket,
+    incoming: Vec<Vec<u8>>,
+) -> Result<(Vec<Vec<u8>>, Vec<String>), String> {
+    use crate::socks5_client as sc;
+    use tokio::io::AsyncWriteExt;
+    let (client_io, mut server_io) = tokio::io::duplex(1 << 16);
+    server_io
+        .write_all(&server_bytes)
+        .await
+        .map_err(|e| e.to_string())?;
+    let assoc = match sc::connect(client_io, None, sc::Request::UdpAssociate).await {
+        Ok(sc::ConnectResult::UdpAssociation(a)) => a,
+        _ => return Err("association not established".to_string()),
+    };
+    let mut seen = vec![];
+    let mut peer = None;
+    for (dst, data) in &sends {
+        assoc.send_to(data, *dst).await.map_err(|e| format!("{:?}", e))?;
+        let mut buf = vec![0u8; 70000];
+        let (n, from) = tokio::time::timeout(
+            std::time::Duration::from_secs(2),
+            relay.recv_from(&mut buf),
+        )
+        .await
+        .map_err(|_| "relay saw nothing".to_string())?
+        .map_err(|e| e.to_string())?;
+        buf.truncate(n);
+        seen.push(buf);
+        peer = Some(from);
+    }
+    let mut results = vec![];
+    if let Some(peer) = peer {
+        for pkt in incoming {
+            relay.send_to(&pkt, peer).await.map_err(|e| e.to_string())?;
+            let mut data = vec![0u8; 65536];
+            let r = tokio::time::timeout(std::time::Duration::from_secs(2), assoc.recv_from(&mut data)).await;
+            results.push(match r {
+                Err(_) => "timeout".to_string(),
+                Ok(Ok((n, src))) => {
+                    let m = n.min(data.len());
+                    let mut h = String::new();
+                    for b in &data[..m] {
+                        h.push_str(&format!("{:02x}", b));
+                    }
+                    format!("ok {} {}", src, if h.is_empty() { "-".to_string() } else { h })
+                }
+                Ok(Err(sc::Error::Protocol(_))) => "protocol".to_string(),
+                Ok(Err(sc::Error::Io(_))) => "io".to_string(),
+                Ok(Err(sc::Error::Authentication(_))) => "auth".to_string(),
+            });
+        }
+    }
+    Ok((seen, results))
+}
